@@ -91,6 +91,7 @@ type FuncSpec struct {
 	Requires []*Clause
 	Ensures  []*Clause
 	Modifies []Expr
+	ModRep   []Expr // modifies#rep: representation-private locations (invisible outside the package)
 	Sets     []*Clause
 	Loops    map[int]*LoopSpec
 	Asserts  []*Clause
@@ -221,7 +222,11 @@ func ParseFile(path string) (*File, error) {
 			if err != nil {
 				return nil, fail(err)
 			}
-			cur.Modifies = append(cur.Modifies, es...)
+			if label == "rep" {
+				cur.ModRep = append(cur.ModRep, es...)
+			} else {
+				cur.Modifies = append(cur.Modifies, es...)
+			}
 		case "sets":
 			i := topLevelAssign(rest)
 			if i < 0 {
@@ -798,4 +803,56 @@ func (p *parser) primary() (Expr, error) {
 		return &Unary{"*", x}, nil
 	}
 	return nil, fmt.Errorf("unexpected token %q", p.peekText())
+}
+
+// String renders an expression back to source form (for obligation names and reports).
+func String(e Expr) string {
+	switch n := e.(type) {
+	case *Ident:
+		return n.Name
+	case *IntLit:
+		return n.Val.String()
+	case *BoolLit:
+		return fmt.Sprint(n.Val)
+	case *StrLit:
+		return strconv.Quote(n.Val)
+	case *Unary:
+		return n.Op + String(n.X)
+	case *Binary:
+		return "(" + String(n.X) + " " + n.Op + " " + String(n.Y) + ")"
+	case *Cond:
+		return "(" + String(n.C) + " ? " + String(n.A) + " : " + String(n.B) + ")"
+	case *Call:
+		var as []string
+		for _, a := range n.Args {
+			as = append(as, String(a))
+		}
+		return String(n.Fun) + "(" + strings.Join(as, ", ") + ")"
+	case *Index:
+		return String(n.X) + "[" + String(n.I) + "]"
+	case *Slice:
+		lo, hi := "", ""
+		if n.Lo != nil {
+			lo = String(n.Lo)
+		}
+		if n.Hi != nil {
+			hi = String(n.Hi)
+		}
+		return String(n.X) + "[" + lo + ":" + hi + "]"
+	case *Sel:
+		return String(n.X) + "." + n.Name
+	case *Quant:
+		q := "exists"
+		if n.Forall {
+			q = "forall"
+		}
+		var vs []string
+		for _, v := range n.Vars {
+			vs = append(vs, v.Name+" "+v.Type)
+		}
+		return "(" + q + " " + strings.Join(vs, ", ") + " :: " + String(n.Body) + ")"
+	case *Old:
+		return "old(" + String(n.X) + ")"
+	}
+	return "?"
 }
